@@ -96,15 +96,6 @@ func main() {
 		fmt.Fprintln(os.Stderr, err)
 		os.Exit(2)
 	}
-	var st *state.State
-	if os.Getenv("VERIF_C06_NO_OVERLORD") == "" {
-		o, err := overlord.New(nil)
-		if err != nil {
-			fmt.Fprintln(os.Stderr, "overlord.New:", err)
-			os.Exit(2)
-		}
-		st = o.State()
-	}
 	dirA := filepath.Join(root, "a")
 	dirB := filepath.Join(root, "b")
 	os.MkdirAll(dirA, 0755)
@@ -113,8 +104,46 @@ func main() {
 	// "link" is a symlink to a file in dir b, written with AtomicWriteFollow
 	os.WriteFile(filepath.Join(dirB, "linked"), []byte("initial-linked"), 0644)
 	os.Symlink(filepath.Join(dirB, "linked"), targets[3])
+	var st *state.State
+	if os.Getenv("VERIF_C06_RESTART") != "" {
+		// a restart: the state file of the previous process is there. It is written
+		// once more in full, in place and synced, so that the trace shows it, and
+		// everything from here on (also overlord.New's own first checkpoint) is
+		// part of the workload
+		if data, err := os.ReadFile(dirs.SnapStateFile); err == nil {
+			if f, err := os.OpenFile(dirs.SnapStateFile, os.O_WRONLY|os.O_CREATE|os.O_TRUNC, 0600); err == nil {
+				f.Write(data)
+				f.Sync()
+				f.Close()
+			}
+		}
+		marker("start")
+		marker("op/%d/begin/state", 1000)
+	}
+	if os.Getenv("VERIF_C06_NO_OVERLORD") == "" {
+		o, err := overlord.New(nil)
+		if err != nil {
+			fmt.Fprintln(os.Stderr, "overlord.New:", err)
+			os.Exit(2)
+		}
+		st = o.State()
+		if os.Getenv("VERIF_C06_RESTART") != "" {
+			if fi, err := os.Stat(dirs.SnapStateFile); err == nil {
+				marker("op/%d/end/%d", 1000, fi.Size())
+			}
+			marker("op/%d/begin/state", 1001)
+			st.Lock()
+			st.Set("verif-restarted", true)
+			st.Unlock()
+			if fi, err := os.Stat(dirs.SnapStateFile); err == nil {
+				marker("op/%d/end/%d", 1001, fi.Size())
+			}
+		}
+	}
 	sizes := []int{0, 1, 100, 4095, 4096, 5000, 70000, 300000, 1500000}
-	marker("start")
+	if os.Getenv("VERIF_C06_RESTART") == "" {
+		marker("start")
+	}
 	for i := 0; i < nops; i++ {
 		kind := r.n(5)
 		if st == nil && kind == 0 {
@@ -167,8 +196,9 @@ func main() {
 			marker("op/%d/begin/file/%d", i, t)
 			af, err := osutil.NewAtomicFile(targets[t], 0644, 0, osutil.NoChown, osutil.NoChown)
 			if err != nil {
-				fmt.Fprintln(os.Stderr, err)
-				os.Exit(2)
+				// (an injected open failure)
+				marker("op/%d/failed/%d", i, len(data))
+				continue
 			}
 			rd := bytes.NewReader(data)
 			buf := make([]byte, 1+r.n(20000))
